@@ -238,7 +238,10 @@ http_rd_buf(nni_http_conn *conn, nni_aio *aio)
 		// (Note that we get here if we either have not completed
 		// a full transaction on a FULL read, or were not even able
 		// to get *any* data for a partial RAW read.)
+		// (nni_aio_set_iov above moved what is left of the user's
+		// vector to the front of the array that iov pointed into.)
 		conn->buffered = false;
+		nni_aio_get_iov(aio, &nio, &iov);
 		nni_aio_set_iov(&conn->rd_aio, nio, iov);
 		nng_stream_recv(conn->sock, &conn->rd_aio);
 		return (NNG_EAGAIN);
